@@ -459,7 +459,20 @@ func c03Core(c *Ctx) bool {
 					for _, o := range []ssa.Value{bo.X, bo.Y} {
 						if cv, ok := o.(*ssa.Convert); ok {
 							if st, ok := cv.X.Type().Underlying().(*types.Basic); ok && st.Info()&types.IsInteger != 0 {
-								mixed = true
+								// the integer is the value of an int literal of the program (not, say, a small
+								// constant a helper is asked to compare a float literal with)
+								if derivesFrom(cv.X, func(v ssa.Value) bool {
+									switch y := v.(type) {
+									case *ssa.Field:
+										return typeIs(y.X.Type(), astPath, "IntLiteral")
+									case *ssa.FieldAddr:
+										nt, _, ok := fieldOf(y)
+										return ok && nt != nil && nt.Obj().Name() == "IntLiteral"
+									}
+									return false
+								}) {
+									mixed = true
+								}
 							}
 						}
 					}
